@@ -521,3 +521,19 @@ Proof.
   - exact NT.
   - intros pre post E Np. rewrite <- app_assoc. apply (H (a :: pre) post); [now rewrite E|exact Np].
 Qed.
+
+(* C03, "justified" over runs: a settled verdict of the stored experiment is backed by the STORED trials (recomputing the
+   status from them gives a verdict: goal reached by some objective value, or enough failed / metrics-unavailable trials,
+   or maxTrialCount completed trials) or by a failed stored suggestion. *)
+Theorem verdict_justified c acts e :
+  valid_cfg c -> no_teardown acts ->
+  w_exp (run c acts) = Some e -> e_completed (e_st e) = true -> restart_enabled_e c e = false ->
+  (w_trials (run c acts) <> [] /\ tdec c (e_max e) (w_trials (run c acts)) = true) \/
+  (exists s, w_sug (run c acts) = Some s /\ sfailed (s_st s) = true).
+Proof.
+  intros V NT He C R. destruct (all_invs c acts V NT) as (I&_&T&SF&N).
+  assert (Cf : w_cfg (run c acts) = c) by (unfold run; now rewrite run_cfg).
+  destruct (nc_v _ N e He) as [[Ne Td]|(cs&Hcs&F)]; [split; [exact C|now rewrite Cf]| |].
+  - left. rewrite Cf in Td. split; [eapply plag_nonempty; [apply (ts_lag _ T)|exact Ne]|eapply tdec_mono; [apply (ts_lag _ T)|exact Td]].
+  - right. exact (sf_cache _ SF _ Hcs F).
+Qed.
